@@ -16,7 +16,7 @@ RULE = ('case = one rectangular float table (0-10 rows, 1-3 columns, distinct in
         'and nona(value, edge) are sampled (pairs exhaustive to length 6 in the thorough tier). Oracle, from the property text: '
         'plain loops recompute which NaNs lie within `limit` of an observation, which rows are all-NaN / leading, the tail rule of '
         'ffill_na/ffill_0; lists must equal applying the real single methods one after another; ndarray result == pandas result '
-        'values; argument unchanged; non-NaN cells unchanged. non-trivial = data with both NaN and non-NaN cells; distinct by full case')
+        'values; argument unchanged; non-NaN cells unchanged. non-trivial = data with both NaN and non-NaN cells; distinct by full case. Kinds that must not matter are varied in the random streams: finite values (integers, half-integers, 0, negatives, 2^40; carried as 2v), constants as int / float / np.float64, index = RangeIndex / dates 1698-2248 / intraday sub-second stamps / text labels, Series name, column labels (text, ints, duplicates, tuples), index name, positional vs keyword call, list / tuple / scalar method, dict / list of series, int64 and float32 data, 101-257 rows with limits up to 1000')
 EXPLANATION = ('theorems C12_* (coq/props/C12.v) hold for vectors and frames of every length and NaN pattern, every method list and '
                'every limit: fill exactly within limit, constants, fold over method lists, nona / fnna / ffill_na / ffill_0, nona edge, '
                'columns of a frame behave as vectors, rows/labels/non-NaN cells preserved. pandas\' own ffill/bfill/fillna are modelled; '
